@@ -12,6 +12,8 @@ struct RefResult {
   std::vector<Q> ray;        // REF_UNBOUNDED
   bool dual_infeasible = false;   // for REF_INFEASIBLE: an improving recession direction exists as well
   bool dual_known = false;
+  bool feas_fragile = false;      // REF_OPTIMAL: shrinking every inequality by 1e-3 (relative) makes the LP infeasible
+  bool bounded_fragile = false;   // REF_OPTIMAL: a recession direction of norm >= 1/2 loses less than 1e-3 of objective
   long pivots = 0;
   double margin = 0;         // robustness of the class against 1e-6 tolerances (see refsimplex.cpp); OPTIMAL: sum|y|+sum|r|
   double dualnorm = 0;       // sum|y_i| + sum|r_j| of the reference dual (REF_OPTIMAL)
